@@ -146,7 +146,11 @@ def run(spec, tag_problems):
     classes = ["d3:" + call.split("+")[0]]
     buckets = []
     explicit = EXPLICIT_LATER.get(call)
-    nt = explicit is not None and (v == explicit or v == S.below(explicit)) or call in ("create", "register", "get_attributes")
+    carries_attributes = call.split("+")[0] in (
+        "create", "create_key_pair", "register", "locate", "derive_key", "rekey", "get_attributes",
+        "get_attribute_list", "modify_attribute", "delete_attribute", "set_attribute")
+    nt = (explicit is not None and (v == explicit or v == S.below(explicit))) or \
+        (carries_attributes and v in (S.V14, S.V20))
 
     def responder(req):
         H.CLOCK.tick()
